@@ -45,6 +45,7 @@ THEOREMS = [
     "Nix.C16.C16_refuses_duplicate_column_name",
     "Nix.C16.C16_refuses_unordered_rows",
     "Nix.C16.C16_refuses_unfit_cell",
+    "Nix.C16.C16_refuses_out_of_range_number",
     # creation variants, units
     "Nix.C16.C16_creation_schema",
     "Nix.C16.C16_created_reads_back",
@@ -82,8 +83,6 @@ ASSUMPTIONS = [
     "(tuple by tuple and NumPy's structured cast) treat alike: well-typed cells, bool / small int / float cells for "
     "numeric columns, numbers the column cannot hold (refused); np.recarray (np.record rows) is not a "
     "structured-array creation variant for the code (type(data[0]) == np.void)",
-    "read_columns(group_by_cols=True) is modelled for requested columns of one kind (NumPy converts columns of "
-    "different kinds to a common type when it builds the 2-D result: numbers become strings next to a text column)",
     "frame names / block-level state are outside the single-frame model (duplicate frame name is an oracle case)",
     "closing and reopening the file is the identity in the model; tied by reopen operations inside the generated "
     "histories",
@@ -1070,10 +1069,8 @@ def gen_op(rng, st, stats):
             nms[-1] = "nope"
         return ["read_columns_name", nms, lo, hi], pres
     if kind in ("read_columns_grouped_idx", "read_columns_grouped_name"):
-        # columns of one kind: NumPy keeps the cells of a 2-D array of one type as they are
-        c0 = rng.randrange(m)
-        same = [c for c in range(m) if KIND[types[c]] == KIND[types[c0]]]
-        cs = [c0] + [rng.choice(same) for _ in range(rng.choice([0, 1, 1, 2]))]
+        # any columns: cells of columns of different types are kept as they were read (fix: object array)
+        cs = [rng.randrange(m) for _ in range(rng.choice([1, 2, 2, 3]))]
         lo = rng.choice([None, None, 0, 1, -2, -n - 3, n])
         hi = rng.choice([None, None, n, n - 1, -1, n + 5, 0])
         if kind.endswith("idx"):
@@ -1370,14 +1367,15 @@ def oracle_history(ctx, k, rng, nops, fixed=None):
             if r != {"ok": want_rows}:
                 return fail("frame[%r:%r] does not return the written rows" % (lo, hi), r, want_rows,
                             "DataSet.__getitem__")
-        pair = [(c, d) for c in range(m) for d in range(m) if c < d and KIND[sh.types[c]] == KIND[sh.types[d]]]
-        if pair:
-            c, d = pair[-1]
-            r = s.run(["read_columns_grouped_idx", [d, c], None, None])
-            want2 = [[row[d] for row in sh.rows], [row[c] for row in sh.rows]]
-            if r != {"ok": want2}:
-                return fail("read_columns(group_by_cols=True) of two columns of one kind does not return the written "
-                            "columns in the requested order", r, want2, "read_columns")
+        if m > 1:
+            for c, d in sorted({(0, m - 1), (m // 2, m - 1)}):
+                if c == d:
+                    continue
+                r = s.run(["read_columns_grouped_idx", [d, c], None, None])
+                want2 = [[row[d] for row in sh.rows], [row[c] for row in sh.rows]]
+                if r != {"ok": want2}:
+                    return fail("read_columns(group_by_cols=True) of two columns does not return the written columns "
+                                "(each cell with its column's type) in the requested order", r, want2, "read_columns")
         return None
 
     try:
@@ -1716,6 +1714,11 @@ FIXED_CASES = [
      {"line": ["append_rows", [[["i", 256], ["s", "z"]]], {"how": "array", "rec": [["a", "i64"], ["b", "text"]]}],
       "expect": "a number the column type cannot hold", "pres": 0},
      _acc(["write_column", [["i", 255], ["i", 0]], 0, None])],
+    # columns of different types read grouped by columns keep their cells (fix: object array instead of NumPy's common
+    # type, which turned numbers into text next to a text column and large integers into floats); check() reads them
+    [["create_dict", [["a", "i64"], ["s", "text"], ["x", "f64"]],
+      [[["i", 9223372036854775807], ["s", "\u00e9"], ["f", "3/2"]], [["i", -3], ["s", ""], ["f", "1/4"]]]],
+     _acc(["append_column", [["b", True], ["b", False]], "flag", "bool"])],
     # a frame holding non-ASCII text: write_column rewrites whole rows read raw from the file (text as bytes);
     # regression of 61e9077 repaired by fix 6332817
     [["create_dict", [["s", "text"], ["k", "i8"]], [[["s", "\u00e9"], ["i", 1]], [["s", "\u4e2d\u6587"], ["i", 2]]]],
@@ -1884,7 +1887,7 @@ MANIFEST = {
                   "verified; the UTF-8 round trip is Lean's own (String is a validated byte array); reopening is the "
                   "identity in the model and carried by the correspondence; floats are exact rationals (no arithmetic "
                   "is done on cells); numeric-literal strings, ints beyond 2^53 for float columns, NaN/inf, frame "
-                  "names, copy_from (oracle case only), compression and group_by_cols over columns of different kinds "
+                  "names, copy_from (oracle case only) and compression "
                   "are outside the model (numbers an integer column cannot hold are inside: refused in every spelling "
                   "since fix ac50c5b). The positional reading of a structured array is "
                   "the model's definition (what the repaired code does); the theorems state that names and layout "
